@@ -320,4 +320,16 @@ def selfStep (c : Nat) (r : Res) : REv → Res
   | .finish k => if k = r.started && !r.completedLatest && r.dep != c then rstep r (.write c) else rstep r (.finish k)
   | .write v => rstep r (.write v)
 
+
+/-! ### an observer of the resource's own boundary that moves an odd dependency value on when the boundary STARTS loading
+
+The boundary the resource lives under is suspended before the fetch function reads its dependencies (repair D29), so the write
+of an odd `v` while no fetch is outstanding is a write of `v + 1`; while a fetch is outstanding the boundary is loading already and
+the observer does not react. -/
+def boEv (r : Res) : REv → REv
+  | .write v => if !r.loading && v % 2 == 1 then .write (v + 1) else .write v
+  | e => e
+def boStep (r : Res) (e : REv) : Res := rstep r (boEv r e)
+def boInit (d : Nat) : Res := Res.init (if d % 2 == 1 then d + 1 else d)
+
 end SycVerif.Async
